@@ -92,6 +92,10 @@ class GenericStrategy(object):
     def test(self, ignore_context):
         p = self.path
         if ignore_context:
+            # a leading "./" does not tie a pattern to a context node
+            while len(p) > 1 and p[0][0] is SELF and not p[0][2] \
+                    and isinstance(p[0][1], NodeTest):
+                p = p[1:]
             if p[0][0] is ATTRIBUTE:
                 steps = [_DOTSLASHSLASH] + p
             else:
